@@ -57,10 +57,15 @@ ASSUMPTIONS = [
     "tensor.nbytes == len(tensor.tobytes()) for every written tensor (C04); a LazyTensor whose function "
     "returns a tensor of another size than declared is outside the statement",
     "initializer value name == tensor name and names are unique per graph (serde writes tensor names); "
-    "external_data paths are relative and already normalised (os.path.normpath is C10's model)",
-    "safetensors file layout (header, ordering inside the file) is the library's: only shard assignment, "
-    "names, lengths and payload bytes are compared for that backend",
-    "file system: seek past EOF leaves a hole that reads as zeros; os.replace is atomic (C08)",
+    "external_data paths are relative and already normalised (os.path.normpath / absolute-path rejection are "
+    "exercised but not modelled; path algebra is C10's model)",
+    "name, dtype and shape of an initializer survive the proto round trip: checked on every case (differential), "
+    "proved in C02/C03, not here",
+    "safetensors file layout (header, ordering inside the file) is the library's: only shard assignment, names, "
+    "lengths, non-overlap and payload bytes are checked for that backend",
+    "file system: seek past EOF leaves a hole that reads as zeros; os.replace is atomic (C08); thread schedules "
+    "of the parallel writer are modelled as an arbitrary order of the writes (the protocol itself is C09)",
+    "POSIX path semantics (posixpath.split/splitext/join) for shard names",
 ]
 
 # ------------------------------------------------------------------------------------------
